@@ -19,7 +19,7 @@ pub enum Focus {
 
 #[derive(Clone, Debug, Hash, Serialize, Deserialize, PartialEq)]
 pub enum Ctor {
-    New { n: u8, v: u32 },
+    New { n: u16, v: u32 },
     Slice { vals: Vec<u32> },
     Iter { vals: Vec<u32> },
 }
@@ -91,6 +91,12 @@ pub fn run<A: Alg>(case: &Case, focus: Focus) -> CaseResult {
         let n = model.len();
         if !n.is_power_of_two() {
             st.label("n-not-power-of-two");
+        }
+        if n > 130 {
+            st.label("n>130");
+        }
+        if n > 4096 {
+            st.label("n>4096");
         }
         match op {
             Op::Set { i, v } => {
@@ -334,10 +340,46 @@ fn size() -> impl Strategy<Value = usize> {
     ]
 }
 
+/// sizes far beyond the small scope: depth > 8, lengths around 2^k up to 2^13 (quick) / 2^16+ (thorough)
+fn large_size(max_log: u32) -> impl Strategy<Value = usize> {
+    prop_oneof![
+        3 => (8u32..=max_log, -2i32..=2).prop_map(|(k, d)| ((1i64 << k) + d as i64).max(131) as usize),
+        2 => 131usize..=(1usize << max_log),
+        1 => Just(255usize), 1 => Just(256usize), 1 => Just(257usize),
+    ]
+}
+
+pub fn ctor_large(max_log: u32) -> impl Strategy<Value = Ctor> {
+    large_size(max_log).prop_flat_map(|n| {
+        prop_oneof![
+            raw_val().prop_map(move |v| Ctor::New { n: n as u16, v }),
+            prop::collection::vec(raw_val(), n).prop_map(|vals| Ctor::Slice { vals }),
+            prop::collection::vec(raw_val(), n).prop_map(|vals| Ctor::Iter { vals }),
+        ]
+    })
+}
+
+/// histories on large trees (few, short: the model is O(n) per operation)
+pub fn case_large(alg: Option<u8>, max_log: u32, max_ops: usize) -> impl Strategy<Value = Case> {
+    let a = match alg {
+        Some(a) => Just(a).boxed(),
+        None => (0u8..14).boxed(),
+    };
+    let small_op = prop_oneof![
+        20 => (idx(), raw_val()).prop_map(|(i, v)| Op::Set { i, v }),
+        40 => (idx(), idx(), any::<u32>()).prop_map(|(l, r, m)| Op::Modify { l, r, m }),
+        30 => (idx(), idx()).prop_map(|(l, r)| Op::Ask { l, r }),
+        15 => (idx(), any::<u8>(), any::<u32>()).prop_map(|(l, fam, t)| Op::LowerBound { l, fam, t }),
+        15 => (idx(), any::<u8>(), any::<u32>()).prop_map(|(r, fam, t)| Op::LowerBoundRev { r, fam, t }),
+    ];
+    (a, prop::bool::weighted(0.4), ctor_large(max_log), prop::collection::vec(small_op, 0..max_ops))
+        .prop_map(|(alg, nonneg, init, ops)| Case { alg, nonneg, init, ops })
+}
+
 pub fn ctor() -> impl Strategy<Value = Ctor> {
     size().prop_flat_map(|n| {
         prop_oneof![
-            raw_val().prop_map(move |v| Ctor::New { n: n as u8, v }),
+            raw_val().prop_map(move |v| Ctor::New { n: n as u16, v }),
             prop::collection::vec(raw_val(), n).prop_map(|vals| Ctor::Slice { vals }),
             prop::collection::vec(raw_val(), n).prop_map(|vals| Ctor::Iter { vals }),
         ]
@@ -468,7 +510,7 @@ pub fn decode(data: &[u8]) -> Option<Case> {
         }
     }
     let init = match ctor_kind {
-        0 | 1 => Ctor::New { n: n as u8, v: rv(take(4)?) },
+        0 | 1 => Ctor::New { n: n as u16, v: rv(take(4)?) },
         k => {
             let mut vals = Vec::new();
             for _ in 0..n {
